@@ -215,14 +215,14 @@ static bool seg_fault_here(const char* call) {
 extern "C" char* __real_strndup(const char*, size_t);
 extern "C" char* __wrap_strndup(const char* s0, size_t n) {
     int64_t prm;
-    if (sut() && fault_here("strndup", &prm)) { if (S) S->fault_kind[F_EIO]++; errno = ENOMEM; return nullptr; }
+    if (sut() && fault_here("strndup", &prm)) { if (S) S->fault_kind[F_ALLOC_FAIL]++; errno = ENOMEM; return nullptr; }
     return __real_strndup(s0, n);
 }
 // the descriptor table cannot grow
 extern "C" void* __real_realloc(void*, size_t);
 extern "C" void* __wrap_realloc(void* p0, size_t n) {
     int64_t prm;
-    if (sim::in_sut() && sim::active() && g_cur_op && g_cur_op->fault == "realloc_fail" && sut() && fault_here("realloc", &prm)) { if (S) S->fault_kind[F_EIO]++; errno = ENOMEM; return nullptr; }
+    if (sim::in_sut() && sim::active() && g_cur_op && g_cur_op->fault == "realloc_fail" && sut() && fault_here("realloc", &prm)) { if (S) S->fault_kind[F_ALLOC_FAIL]++; errno = ENOMEM; return nullptr; }
     return __real_realloc(p0, n);
 }
 extern "C" ssize_t __real_read(int, void*, size_t);
